@@ -14,7 +14,9 @@ package main
 // `_args` the real resolver delivered to every stage job and the recorded
 // top-level outs of the same Tier-A run.
 //
-// The theorem `resolver_refines_den_plain_checked` is replayed on every program
+// The refinement theorems with node-wise store (`resolver_refines_den_mapstatic_checked` for map calls
+// of stages, `resolver_refines_den_mappedpipes_checked` for mapped pipelines / nesting; both cover
+// plain programs) are replayed on every program
 // whose decidable hypotheses hold (`frag=1`): twoPhase must equal den.
 
 import (
@@ -127,15 +129,19 @@ func c01RExp(sb *strings.Builder, e syntax.Exp) error {
 		}
 		sb.WriteString(")")
 	case *syntax.DisabledExp:
-		sb.WriteString("(dis ")
-		if err := c01RExp(sb, t.Disabled); err != nil {
+		var ds, vs strings.Builder
+		if err := c01RExp(&ds, t.Disabled); err != nil {
 			return err
 		}
-		sb.WriteByte(' ')
-		if err := c01RExp(sb, t.Value); err != nil {
+		if err := c01RExp(&vs, t.Value); err != nil {
 			return err
 		}
-		sb.WriteString(")")
+		// two wrappers on the same control are one (canonical form, like the driver)
+		if strings.HasPrefix(vs.String(), "(dis "+ds.String()+" ") {
+			sb.WriteString(vs.String())
+		} else {
+			sb.WriteString("(dis " + ds.String() + " " + vs.String() + ")")
+		}
 	default:
 		return &c01Unsupported{fmt.Sprintf("resolved expression %T", e)}
 	}
@@ -154,9 +160,27 @@ func c01CGNodes(sb *strings.Builder, node syntax.CallGraphNode) error {
 		}
 		return nil
 	}
+	// a node that is always disabled (constant true control) never runs: left out on both sides
+	if ds := node.Disabled(); len(ds) > 0 {
+		if b, ok := ds[0].(*syntax.BoolExp); ok && b.Value {
+			return nil
+		}
+	}
 	sb.WriteString(" (node " + node.GetFqid() + " (forks")
 	for _, fr := range node.ForkRoots() {
 		sb.WriteString(" " + fr.Call().Id)
+	}
+	sb.WriteString(") (disabled")
+	seenDis := map[string]bool{}
+	for _, d := range node.Disabled() {
+		var db strings.Builder
+		if err := c01RExp(&db, d); err != nil {
+			return err
+		}
+		if !seenDis[db.String()] {
+			seenDis[db.String()] = true
+			sb.WriteString(" " + db.String())
+		}
 	}
 	sb.WriteString(")")
 	ins := node.ResolvedInputs()
@@ -346,7 +370,7 @@ func c01StaticCheck(c *Ctx, cases []c01StaticCase, stream string, reported map[s
 				r.violate(Violation{Kind: "correspondence", Key: "C01:two-phase-vs-den",
 					What:   "twoPhase differs from den on a program that passes wellTypedB/acyclicB (the driver's encoding or the theorem's replay is broken)",
 					Input:  map[string]interface{}{"program": cs.src, "name": cs.name},
-					Broken: "resolver_refines_den_plain_checked"})
+					Broken: "resolver_refines_den_mapstatic_checked / resolver_refines_den_mappedpipes_checked"})
 			}
 		}
 		if rep.den == "eq" {
